@@ -226,7 +226,7 @@ theorem writeSpec_closed (R : Nat → Int × GoSem.Err) (C : Nat → Bool) :
     · simp only [if_neg he]
       rw [ih _ _ _ (wrapI64_in _), wrapI64_add_wrapI64]
       cases hc : C r <;>
-        simp [copiedTotal, errAt, List.filter_cons, hc, Int.add_assoc]
+        simp [copiedTotal, errAt, hc, Int.add_assoc]
 
 /-- **2 (exact, no arithmetic hypothesis). The translated `writeToWithBuffer` in closed form.**
 With `k = firstFail R_Copy mr_readers` (the index of the first source whose copy returns an error,
@@ -320,7 +320,7 @@ theorem firstFail_meaning (R : Nat → Int × GoSem.Err) (ids : List Nat) :
       · intro hk
         have := h4 (by simpa using hk)
         simpa [errAt] using this
-    · simp [if_pos he, errAt, he]
+    · simp [errAt, he]
 
 /-- Counter-witness outside the range: two sources reporting `MaxInt64` and `1` bytes — the
 returned `sum` is `MinInt64`, not the mathematical sum. -/
@@ -434,11 +434,11 @@ theorem cloop_spec (C : Nat → Bool) :
       · simp only [Bool.false_eq_true, ↓reduceIte]
         rcases ih rs (pre ++ [r]) cl with h | h
         · left; exact ⟨h.1, by simp only [List.length_cons]; omega⟩
-        · right; rw [h]; simp [List.filter_cons, hc]
+        · right; rw [h]; simp [hc]
       · simp only [↓reduceIte]
         rcases ih rs (pre ++ [r]) (cl ++ [r]) with h | h
         · left; exact ⟨h.1, by simp only [List.length_cons]; omega⟩
-        · right; rw [h]; simp [List.filter_cons, hc]
+        · right; rw [h]; simp [hc]
 
 theorem multi_close_code_cases (fuel : Nat) (C : Nat → Bool) (ids cl : List Nat) :
     (MultiReaderCloser_Close fuel C ids cl = .nofuel ∧ fuel ≤ ids.length) ∨
@@ -457,7 +457,7 @@ theorem multi_close_code_spec (fuel : Nat) (R_IsCloser : Nat → Bool) (mr_reade
   · have := h.2; omega
   · exact h
 
-theorem multi_close_code_never_panics (fuel : Nat) (R_IsCloser : Nat → Bool) (mr_readers closeLog : List Nat) :
+theorem wt_multi_close_code_never_panics (fuel : Nat) (R_IsCloser : Nat → Bool) (mr_readers closeLog : List Nat) :
     ∀ msg, MultiReaderCloser_Close fuel R_IsCloser mr_readers closeLog ≠ .panic msg := by
   intro msg hp
   rcases multi_close_code_cases fuel R_IsCloser mr_readers closeLog with h | h
@@ -491,6 +491,175 @@ theorem writeTo_then_close_code_closes_each_once (fuel fuel2 : Nat) (R_IsCloser 
   · intro i
     rw [List.Nodup.count (hnd.sublist List.filter_sublist)]
     simp only [List.mem_filter]
+
+/-! ### 4. the translated `writeToWithBuffer` is the model's `Multi.writeLoop .fixed`
+
+The scripted writer's state threads through the sources: what `io.CopyBuffer(w, srcs[j], buf)`
+returns depends on what the earlier copies left in the writer. `R_Copy` is therefore read off the
+model run itself: `CopyTied` ties identifier `ids[j]` to `copyBuffer srcs[j] w_j` where `w_0 = w`
+and `w_{j+1}` is the writer `copyBuffer srcs[j] w_j` leaves (`copyTable` is that table). The byte
+count of one copy is the growth of the writer's `got`. -/
+
+/-- What `io.CopyBuffer(w, s, buf)` returns (bytes written, error), read off the model's
+`copyBuffer`. -/
+def copyRes (s : Src) (w : Wr) : Int × GoSem.Err :=
+  (((copyBuffer s w).2.1.got.length : Int) - (w.got.length : Int), encErr (copyBuffer s w).2.2)
+
+/-- `ids` and `srcs` have the same length; `R_Copy ids[j]` is the model's copy of `srcs[j]` into the
+writer as the copies of `srcs[0..j-1]` left it; `R_IsCloser ids[j]` is `srcs[j].closable`. -/
+def CopyTied (R : Nat → Int × GoSem.Err) (C : Nat → Bool) : List Nat → List Src → Wr → Prop
+  | [], [], _ => True
+  | i :: ids, s :: ss, w =>
+    R i = copyRes s w ∧ C i = s.closable ∧ CopyTied R C ids ss (copyBuffer s w).2.1
+  | _, _, _ => False
+
+theorem CopyTied.length {R : Nat → Int × GoSem.Err} {C : Nat → Bool} :
+    ∀ {ids : List Nat} {srcs : List Src} {w : Wr}, CopyTied R C ids srcs w → ids.length = srcs.length := by
+  intro ids
+  induction ids with
+  | nil => intro srcs w h; cases srcs with
+    | nil => rfl
+    | cons _ _ => simp [CopyTied] at h
+  | cons i ids ih =>
+    intro srcs w h
+    cases srcs with
+    | nil => simp [CopyTied] at h
+    | cons s ss => simp [ih h.2.2]
+
+theorem wt_encErr_ne_none (e : Option Streams.Err) : encErr e ≠ none ↔ e ≠ none := by
+  cases e with
+  | none => simp [encErr]
+  | some e => cases e <;> simp [encErr]
+
+/-- `writeSpec` over identifiers tied to a model run is that run of `Multi.writeLoop .fixed`: `k`
+sources moved to `done`. -/
+theorem writeSpec_eq_model (R : Nat → Int × GoSem.Err) (C : Nat → Bool) :
+    ∀ (ids : List Nat) (srcs dn : List Src) (w : Wr) (cl cp : List Nat) (s : Int),
+      CopyTied R C ids srcs w → InI64 s →
+      ∃ k, (Multi.writeLoop .fixed srcs dn w).1.done.length = dn.length + k ∧
+        writeSpec R C ids cl cp s =
+          (wrapI64 (s + (((Multi.writeLoop .fixed srcs dn w).2.1.got.length : Int) - (w.got.length : Int))),
+           encErr (Multi.writeLoop .fixed srcs dn w).2.2,
+           ids.drop k, cl ++ (ids.take k).filter C, cp ++ ids.take (k + 1)) := by
+  intro ids
+  induction ids with
+  | nil =>
+    intro srcs dn w cl cp s h hs
+    cases srcs with
+    | nil => exact ⟨0, by simp [Multi.writeLoop], by simp [writeSpec, Multi.writeLoop, encErr, wrapI64_of_in hs]⟩
+    | cons _ _ => simp [CopyTied] at h
+  | cons i ids ih =>
+    intro srcs dn w cl cp s h hs
+    cases srcs with
+    | nil => simp [CopyTied] at h
+    | cons s0 ss =>
+      obtain ⟨hR, hC, htl⟩ := h
+      rw [Multi.writeLoop]
+      simp only [writeSpec, hR, copyRes]
+      rcases hcp : copyBuffer s0 w with ⟨r', w', e⟩
+      simp only [hcp] at htl ⊢
+      cases e with
+      | some e =>
+        have hne : encErr (some e) ≠ none := (wt_encErr_ne_none _).mpr (by simp)
+        exact ⟨0, by simp, by simp [if_pos hne]⟩
+      | none =>
+        have hne : ¬ (encErr none ≠ none) := by simp [encErr]
+        simp only [if_neg hne]
+        obtain ⟨k, hk1, hk2⟩ := ih ss (dn ++ [r'.closeIfCloser]) w' (if C i then cl ++ [i] else cl)
+          (cp ++ [i]) (wrapI64 (s + ((w'.got.length : Int) - (w.got.length : Int)))) htl (wrapI64_in _)
+        refine ⟨k + 1, by rw [hk1]; simp only [List.length_append, List.length_cons, List.length_nil]; omega, ?_⟩
+        rw [hk2, wrapI64_add_wrapI64]
+        have hsum : ∀ x : Int, s + ((w'.got.length : Int) - (w.got.length : Int)) + (x - (w'.got.length : Int)) =
+            s + (x - (w.got.length : Int)) := by intro x; omega
+        rw [hsum]
+        cases hc : C i <;> simp [hc]
+
+/-- **4 (general form). The translated `writeToWithBuffer` is the model's `Multi.writeLoop .fixed`**:
+any identifiers tied to a model run (any sources, any scripted writer `w`, any `done`
+accumulator), any starting logs, fuel ≥ `len + 1`; the bytes the writer received in this call fit an
+int64 (otherwise `sum` wraps, `writeTo_code_sum_wraps`). With `r` the model's result and `k` the
+number of sources it moved to `done`, the translated function returns
+`sum` = the growth of the writer's `got`, `err` = the model's error, `mr.readers = ids[k:]` (the
+identifiers of `r.readers`), `closeLog ++` the closers among `ids[0..k-1]`, `copyLog ++ ids[0..k]`. -/
+theorem writeTo_code_eq_model_gen (R_Copy : Nat → Int × GoSem.Err) (R_IsCloser : Nat → Bool)
+    (ids : List Nat) (srcs dn : List Src) (w : Wr) (closeLog copyLog : List Nat) (fuel : Nat)
+    (htied : CopyTied R_Copy R_IsCloser ids srcs w) (hfuel : srcs.length + 1 ≤ fuel)
+    (hsum : InI64 (((Multi.writeLoop .fixed srcs dn w).2.1.got.length : Int) - (w.got.length : Int))) :
+    MultiReaderCloser_writeToWithBuffer fuel R_IsCloser R_Copy ids closeLog copyLog =
+      .ok (((Multi.writeLoop .fixed srcs dn w).2.1.got.length : Int) - (w.got.length : Int),
+           encErr (Multi.writeLoop .fixed srcs dn w).2.2,
+           ids.drop ((Multi.writeLoop .fixed srcs dn w).1.done.length - dn.length),
+           closeLog ++ (ids.take ((Multi.writeLoop .fixed srcs dn w).1.done.length - dn.length)).filter R_IsCloser,
+           copyLog ++ ids.take ((Multi.writeLoop .fixed srcs dn w).1.done.length - dn.length + 1)) := by
+  rw [writeTo_code_eq_writeSpec fuel R_IsCloser R_Copy ids closeLog copyLog (by rw [htied.length]; exact hfuel)]
+  obtain ⟨k, hk1, hk2⟩ := writeSpec_eq_model R_Copy R_IsCloser ids srcs dn w closeLog copyLog 0 htied (by decide)
+  have hk : (Multi.writeLoop .fixed srcs dn w).1.done.length - dn.length = k := by omega
+  rw [hk2, hk, Int.zero_add, wrapI64_of_in hsum]
+
+/-- `CopyTied` only looks at `R`, `C` on the identifiers themselves. -/
+theorem CopyTied.congr {R R' : Nat → Int × GoSem.Err} {C C' : Nat → Bool} :
+    ∀ {ids : List Nat} {srcs : List Src} {w : Wr}, (∀ i ∈ ids, R' i = R i ∧ C' i = C i) →
+      CopyTied R C ids srcs w → CopyTied R' C' ids srcs w := by
+  intro ids
+  induction ids with
+  | nil => intro srcs w _ h; cases srcs with
+    | nil => trivial
+    | cons _ _ => simp [CopyTied] at h
+  | cons i ids ih =>
+    intro srcs w heq h
+    cases srcs with
+    | nil => simp [CopyTied] at h
+    | cons s ss =>
+      obtain ⟨h1, h2, h3⟩ := h
+      have := heq i (by simp)
+      exact ⟨by rw [this.1, h1], by rw [this.2, h2], ih (fun j hj => heq j (by simp [hj])) h3⟩
+
+/-- The table of `io.CopyBuffer` results of a model run: entry `j` is the copy of `srcs[j]` into
+the writer as the copies of `srcs[0..j-1]` left it (a prefix-sum style definition). -/
+def copyTable : List Src → Wr → List (Int × GoSem.Err)
+  | [], _ => []
+  | s :: ss, w => copyRes s w :: copyTable ss (copyBuffer s w).2.1
+
+/-- `R_Copy` given by that table; identifier `b + j` is `srcs[j]`. -/
+def tableCopy (b : Nat) (srcs : List Src) (w : Wr) : Nat → Int × GoSem.Err :=
+  fun i => (copyTable srcs w).getD (i - b) (0, none)
+
+theorem copyTied_table : ∀ (srcs : List Src) (b : Nat) (w : Wr),
+    CopyTied (tableCopy b srcs w) (tableIsCloser b srcs) (List.range' b srcs.length) srcs w := by
+  intro srcs
+  induction srcs with
+  | nil => intro b w; simp [CopyTied]
+  | cons s ss ih =>
+    intro b w
+    rw [List.length_cons, List.range'_succ]
+    refine ⟨by simp [tableCopy, copyTable], by simp [tableIsCloser], ?_⟩
+    apply CopyTied.congr _ (ih (b + 1) (copyBuffer s w).2.1)
+    intro i hi
+    have hb : b + 1 ≤ i := (List.mem_range'_1.mp hi).1
+    have hi' : i - b = (i - (b + 1)) + 1 := by omega
+    simp [tableCopy, tableIsCloser, copyTable, hi']
+
+/-- **4. `writeTo_code_eq_model`: the translated `writeToWithBuffer` is the model's
+`Multi.writeTo .fixed`.** Scripted sources `srcs`, known to the translated code as
+`0, 1, …, len-1`, a scripted writer `w`, `R_Copy := tableCopy 0 srcs w` (the model's own
+`copyBuffer` results along the run), `R_IsCloser j = srcs[j].closable`; fuel ≥ `len + 1`; the
+bytes written in this call fit an int64. -/
+theorem writeTo_code_eq_model (srcs : List Src) (w : Wr) (closeLog copyLog : List Nat) (fuel : Nat)
+    (hfuel : srcs.length + 1 ≤ fuel)
+    (hsum : InI64 (((Multi.writeTo .fixed (Multi.new srcs) w).2.1.got.length : Int) - (w.got.length : Int))) :
+    MultiReaderCloser_writeToWithBuffer fuel (tableIsCloser 0 srcs) (tableCopy 0 srcs w)
+        (List.range srcs.length) closeLog copyLog =
+      .ok (((Multi.writeTo .fixed (Multi.new srcs) w).2.1.got.length : Int) - (w.got.length : Int),
+           encErr (Multi.writeTo .fixed (Multi.new srcs) w).2.2,
+           (List.range srcs.length).drop (Multi.writeTo .fixed (Multi.new srcs) w).1.done.length,
+           closeLog ++ ((List.range srcs.length).take
+             (Multi.writeTo .fixed (Multi.new srcs) w).1.done.length).filter (tableIsCloser 0 srcs),
+           copyLog ++ (List.range srcs.length).take
+             ((Multi.writeTo .fixed (Multi.new srcs) w).1.done.length + 1)) := by
+  have h := writeTo_code_eq_model_gen _ _ _ srcs [] w closeLog copyLog fuel (copyTied_table srcs 0 w) hfuel hsum
+  rw [← List.range_eq_range'] at h
+  rw [h]
+  simp [Multi.writeTo, Multi.new]
 
 /-! ### 5. non-vacuity: the translated functions themselves, evaluated -/
 
@@ -551,5 +720,22 @@ example : ∃ f rest pre added, [10, 11, 12] = pre ++ f :: rest ∧ [11, 12] = f
 example :=
   writeTo_then_close_code_closes_each_once 4 3 (fun _ => true) exCopyFail [10, 11, 12] [] [] 8
     (some "boom") [11, 12] [10] [10, 11] (by decide) (by decide +kernel) (by decide)
+
+/-- Item 4 on a concrete run: three scripted sources, a writer that fails after 4 bytes (in the
+second source) — the translated code with the model-derived `R_Copy`, evaluated; and
+`writeTo_code_eq_model` applies (its hypotheses are satisfiable). -/
+def exWr : Wr := { got := [], cap := some 4, closable := false, closes := 0 }
+
+example :
+    MultiReaderCloser_writeToWithBuffer 4 (tableIsCloser 0 [exData, exDataEOF, exData])
+      (tableCopy 0 [exData, exDataEOF, exData] exWr) (List.range 3) [] [] =
+      .ok (4, some "src:wfail", [1, 2], [0], [0, 1]) := by decide +kernel
+
+example :
+    MultiReaderCloser_writeToWithBuffer 4 (tableIsCloser 0 [exData, exDataEOF, exData])
+      (tableCopy 0 [exData, exDataEOF, exData] exWr) (List.range [exData, exDataEOF, exData].length) [] [] =
+      .ok (4, some "src:wfail", [1, 2], [0], [0, 1]) :=
+  (writeTo_code_eq_model [exData, exDataEOF, exData] exWr [] [] 4 (by decide) (by decide +kernel)).trans
+    (by decide +kernel)
 
 end Kit.Streams.Code
